@@ -93,7 +93,7 @@ def sPath (p : List Nat) : String := sList sNat "." p
 
 def showItem (i : Item) : String :=
   let e := i.extra
-  let base := s!"k={i.kind} t={sList (sOpt sNat ·) "," i.tracks |>.replace "-" "s"} ch={sList sNat "," i.channels}" ++
+  let base := s!"k={i.kind} t={sList (fun (t : Option Nat) => match t with | none => "s" | some n => toString n) "," i.tracks} ch={sList sNat "," i.channels}" ++
     s!" pr={sOpt sNat i.programme} co={sOpt sNat i.content} op={sOpt sPath i.objPath}" ++
     s!" pp={sList sPath "," i.packPaths}" ++
     s!" st={sOpt sRat e.objectStart} du={sOpt sRat e.objectDuration} sc={sOpt sNat e.screen}" ++
